@@ -1913,11 +1913,11 @@ class Tensor(object):
         self._cp_to_tt()
         if self.batch:
             batch_size = self.cores[0].shape[0]
-            L = torch.ones(batch_size, 1, 1)
-            R = torch.ones(batch_size, 1, 1)
+            L = torch.ones(batch_size, 1, 1, dtype=self.cores[0].dtype)
+            R = torch.ones(batch_size, 1, 1, dtype=self.cores[0].dtype)
         else:
-            L = torch.ones(1, 1)
-            R = torch.ones(1, 1)
+            L = torch.ones(1, 1, dtype=self.cores[0].dtype)
+            R = torch.ones(1, 1, dtype=self.cores[0].dtype)
         for i in range(mu):
             R = self.left_orthogonalize(i)
         for i in range(self.dim() - 1, mu, -1):
